@@ -256,9 +256,27 @@ func runC12(r *Rng, n int, tier string) {
 		files["sqlc.json"] = confV2(entries)
 		res := generate(files)
 		impl := J{"ok": res.OK(), "files": fileHashes(res.Files), "diag": strings.TrimSpace(res.Stderr) != "", "panic": res.Panic != ""}
+		// every gen target of every entry has its own output directory: when the run succeeds each holds files
+		missingTarget := ""
+		if res.OK() {
+			for _, p := range specs {
+				outs := []string{p.Out}
+				for _, x := range p.Extra {
+					outs = append(outs, p.Out+map[string]string{"go": "_go", "kotlin": "_kt", "python": "_py"}[x])
+				}
+				for _, o := range outs {
+					if len(filterPrefix(res.Files, o+"/")) == 0 {
+						missingTarget = fmt.Sprintf("generation succeeded but the gen target writing to %s produced no file", o)
+					}
+				}
+			}
+		}
 		c := Case{ID: fmt.Sprintf("multi-%d", i), Kind: "multi", In: J{"packages": specs, "outcomes": outcomes, "files": files}, Impl: impl, Tags: append(tags, fmt.Sprintf("packages=%d", np))}
+		if missingTarget != "" {
+			c.Oracle = missingTarget
+		}
 		// CLI level on a subset
-		if i%4 == 0 {
+		if i%4 == 0 && c.Oracle == "" {
 			st, se, added, changed := runCLI(files, "generate")
 			st2, se2, added2, changed2 := runCLI(files, "compile")
 			var want []string
